@@ -17,6 +17,8 @@ def jObs15 (o : Obs15) : LJson :=
     ("sub_ser", jRes jFields o.subSer),
     ("sub_deser", jRes (jNamed jVal) o.subDeser),
     ("narrow_deser", jRes (jNamed jVal) o.narrowDeser),
+    ("sub_ser2", jRes jFields o.subSer2),
+    ("subset_intact", Lean.Json.bool o.subsetIntact),
     ("again", Lean.Json.mkObj [
       ("deser", jRes (jNamed jVal) o.againDeser),
       ("rebuilt", jRes (jNamed jVal) o.againRebuilt),
@@ -40,6 +42,8 @@ def parseObs15 (j : LJson) : Except String Obs15 := do
     subSer := ← parseRes parseFields (← j.getObjVal? "sub_ser")
     subDeser := ← parseRes (parseNamed parseVal) (← j.getObjVal? "sub_deser")
     narrowDeser := ← parseRes (parseNamed parseVal) (← j.getObjVal? "narrow_deser")
+    subSer2 := ← parseRes parseFields (← j.getObjVal? "sub_ser2")
+    subsetIntact := ← getBool j "subset_intact"
     againDeser := ← parseRes (parseNamed parseVal) (← ag.getObjVal? "deser")
     againRebuilt := ← parseRes (parseNamed parseVal) (← ag.getObjVal? "rebuilt")
     againShared := ← getBool ag "shared"
